@@ -93,6 +93,9 @@ def observed_stream(ub, ts, ss, spatial_dims):
     return steps
 
 
+GEMMX_PORT_BITS = [8, 8, 8, 32, 32]
+
+
 def run_case(case, res):
     c = ctx()
     out = []
@@ -183,6 +186,20 @@ def run_case(case, res):
             R.bump(res, "reference_cannot_instantiate")
             continue
         elsize = elsize_of(t)
+        if acc_name == "snax_gemmx" and len(streamers) == 5:
+            # the five gemmx ports move A (i8), B (i8), D8 (i8), C (i32), D32 (i32) words (SNAXGEMMXAccelerator.from_config): an operand
+            # on a port of another element width is fetched / stored with the wrong word size whatever its stride pattern says
+            R.bump(res, "port_widths_checked")
+            if elsize * 8 != GEMMX_PORT_BITS[si]:
+                out.append(
+                    {
+                        "kind": "operand-on-port-of-other-element-width",
+                        "detail": f"operand {oi} ({t.element_type}) is streamed through gemmx port {si} ({'A B D8 C D32'.split()[si]}, {GEMMX_PORT_BITS[si]} bit)",
+                        "case": {**case},
+                        "info": {"stream": si, "operand": oi},
+                    }
+                )
+                return out
         exp = expected_stream(bounds, maps[oi], ref, elsize, n_template)
         obs = observed_stream(ub, ts, ss, streamers[si].spatial_dims)
         R.bump(res, "streams_compared")
